@@ -334,7 +334,7 @@ mut("c06-absorb-silent-flip", "C06", "location.go", "\t\tcase Between:\n\t\t\tif
 mut("c06-offset-point-printer", "C06", "location.go", "return strconv.Itoa(int(point + 1))", "return strconv.Itoa(int(point))", ["OFFSET-AGREE|gts.Point"])
 mut("c06-offset-ambiguous-parser", "C06", "location.go", "\tstart := result.Value.(int) - 1\n\tc, err := pars.Next(state)", "\tstart := result.Value.(int)\n\tc, err := pars.Next(state)", ["OFFSET-AGREE|gts.Ambiguous.Start"])
 mut("c06-offset-silent-point", "C06", "location.go", "return strconv.Itoa(int(point + 1))", "return strconv.Itoa(int(point) + 1)", silent=True)
-mut("c06-between-no-adjacency", "C06", "location.go", "\tif start+1 != end {\n\t\treturn fmt.Errorf(\"%d^%d is not a valid location: coordinates should be adjacent\", start, end)\n\t}\n", "\t_ = end\n", ["OFFSET-AGREE|gts.Between"])
+mut("c06-between-no-adjacency", "C06", "location.go", "\tif start+1 != end {\n\t\tstate.Pop()\n\t\treturn fmt.Errorf(\"%d^%d is not a valid location: coordinates should be adjacent\", start, end)\n\t}\n", "\t_ = end\n", ["OFFSET-AGREE|gts.Between"])
 mut("c06-wrap-request-short", "C06", "location.go", "state.Request(6)", "state.Request(5)", ["WRAP-TOKENS|gts.Ordered"])
 mut("c06-wrap-ctor", "C06", "location.go", "result.SetValue(Order(result.Value.([]Location)...))", "result.SetValue(Join(result.Value.([]Location)...))", ["WRAP-TOKENS|gts.Ordered"])
 mut("c06-marker-printer-flag", "C06", "location.go", "\tif ranged.Partial.Partial3 {\n\t\tb.WriteByte('>')", "\tif ranged.Partial.Partial5 {\n\t\tb.WriteByte('>')", ["MARKER-AGREE|gts.Ranged|>|printer"])
@@ -429,6 +429,39 @@ mut("c07-pushpop-ambiguous-leak", "C07", "location.go", "\tif c != '.' {\n\t\ter
 mut("c07-pushpop-join-reverted", "C07", "location.go", "\tif err := multipleLocationParser(state, result); err != nil {\n\t\tstate.Pop()\n\t\treturn err\n\t}\n\tc, err := pars.Next(state)\n\tif err != nil {\n\t\tstate.Pop()\n\t\treturn err\n\t}\n\tif c != ')' {\n\t\terr := pars.NewError(\"expected `)`\", state.Position())\n\t\tstate.Pop()\n\t\treturn err\n\t}\n\tstate.Advance()\n\tresult.SetValue(Join(", "\tif err := multipleLocationParser(state, result); err != nil {\n\t\treturn err\n\t}\n\tc, err := pars.Next(state)\n\tif err != nil {\n\t\tstate.Pop()\n\t\treturn err\n\t}\n\tif c != ')' {\n\t\terr := pars.NewError(\"expected `)`\", state.Position())\n\t\tstate.Pop()\n\t\treturn err\n\t}\n\tstate.Advance()\n\tresult.SetValue(Join(", ["PUSH-POP|gts.parseJoin|frames"], note="the repaired defect, reintroduced")
 mut("c07-pushpop-double-drop", "C07", "location.go", "\tresult.SetValue(Ambiguous{start, end})\n\tstate.Drop()\n", "\tresult.SetValue(Ambiguous{start, end})\n\tstate.Drop()\n\tstate.Drop()\n", ["PUSH-POP|gts.parseAmbiguous|frames"])
 mut("c07-pushpop-silent-defer-free", "C07", "location.go", "\tif start+1 != end {\n\t\tstate.Pop()\n\t\treturn fmt.Errorf(", "\tif end != start+1 {\n\t\tstate.Pop()\n\t\treturn fmt.Errorf(", silent=True)
+
+
+# ---------------------------------------------------------------- round-3 rules
+mut("c02-shortcut-ordered-expand", "C02", "location.go", "func (ordered Ordered) Expand(i, n int) Location {\n", "func (ordered Ordered) Expand(i, n int) Location {\n\tif n == 0 {\n\t\treturn ordered\n\t}\n", ["NO-SHORTCUT|gts.Ordered.Expand"])
+mut("c03-wrap-ge", "C03", "sequence.go", "\tif end < start {\n\t\tlength := seqlen - start + end", "\tif start >= end {\n\t\tlength := seqlen - start + end", ["WRAP-COND|gts.Slice"])
+mut("c03-wrap-silent-flipped", "C03", "sequence.go", "\tif end < start {\n\t\tlength := seqlen - start + end", "\tif start > end {\n\t\tlength := seqlen - start + end", silent=True)
+mut("c05-complemented-reverse-adjusted", "C05", "location.go", "return Complemented{complement.Location.Reverse(length)}", "return Complemented{complement.Location.Reverse(length - 1)}", ["DELEGATE-COMPLEMENT|gts.Complemented.Reverse"])
+mut("c05-complemented-reverse-silent-local", "C05", "location.go", "return Complemented{complement.Location.Reverse(length)}", "loc := complement.Location.Reverse(length)\n\treturn Complemented{loc}", silent=True)
+mut("c02-complemented-shift-as-expand", "C02", "location.go", "return Complemented{complement.Location.Shift(i, n)}", "return Complemented{complement.Location.Expand(i, n)}", ["DELEGATE-COMPLEMENT|gts.Complemented.Shift"])
+mut("c07-commit-source-pop", "C07", "seqio/genbank_subparsers.go", "\t\tif err := organismParser(state, pars.Void); err != nil {\n\t\t\tstate.Pop()\n\t\t\treturn err\n\t\t}", "\t\tif err := organismParser(state, pars.Void); err != nil {\n\t\t\treturn err\n\t\t}", ["COMMIT|seqio.genbankSourceParser|clear"])
+mut("c08-grammar-leaf-operand", "C08", "locator.go", "parser = pars.Any(parseComplement(&parser), parseRange, parsePoint)", "parser = pars.Any(parseComplement(parsePoint), parseRange, parsePoint)", ["LOC-GRAMMAR|gts.parseComplement"])
+mut("c14-key7-sort-after-read", "C14", "cmd/gts/select.go", "\tsort.Strings(*selectors)\n\n\tfilters := make([]gts.Filter, len(*selectors))\n", "\tfilters := make([]gts.Filter, len(*selectors))\n\tdefer sort.Strings(*selectors)\n", ["KEY-7|main.selectFunc"], note="the option is read (len) before it is sorted")
+mut("c14-key8-length-only", "C14", "cmd/gts/query.go", '{"names", *names},', '{"names", len(*names)},', ["KEY-8|main.queryFunc|tuple=names"])
+mut("c14-key8-first-element", "C14", "cmd/gts/extract.go", '{"locators", *locstrs},', '{"locators", (*locstrs)[0]},', ["KEY-8|main.extractFunc|tuple=locators"])
+mut("c16-loop-bound-writer-inclusive", "C16", "seqio/origin.go", "\t\tfor j := 0; j < 60 && i+j < length; j += 10 {\n\t\t\tstart := i + j", "\t\tfor j := 0; j < 60 && i+j <= length; j += 10 {\n\t\t\tstart := i + j", ["LOOP-BOUND|seqio.NewOrigin"])
+mut("c16-loop-bound-silent-flipped", "C16", "seqio/origin.go", "\t\tfor j := 0; j < 60 && i+j < length; j += 10 {\n\t\t\tstart := i + j", "\t\tfor j := 0; j < 60 && length > i+j; j += 10 {\n\t\t\tstart := i + j", silent=True)
+mut("c01-prefix-journal", "C01", "seqio/genbank.go", '"  JOURNAL   " + AddPrefix(ref.Journal, indent) + "\\n"', '"  JOURNAL   " + ref.Journal + "\\n"', ["PREFIX-ALL|seqio.GenBank.String|JOURNAL"])
+mut("c01-prefix-silent-local", "C01", "seqio/genbank.go", '\t\t\tb.WriteString("  TITLE     " + AddPrefix(ref.Title, indent) + "\\n")', '\t\t\ttitle := AddPrefix(ref.Title, indent)\n\t\t\tb.WriteString("  TITLE     " + title + "\\n")', silent=True)
+mut("c01-dblink-separator", "C01", "seqio/genbank.go", 'fmt.Sprintf("%s: %s\\n", pair.Key, pair.Value)', 'fmt.Sprintf("%s:%s\\n", pair.Key, pair.Value)', ["DBLINK-AGREE|seqio.DBLINK"])
+mut("c01-dblink-guard-strict", "C01", "seqio/genbank_subparsers.go", "if len(s) < i+2 {", "if len(s) < i+3 {", ["DBLINK-AGREE|seqio.DBLINK"])
+mut("c19-esc-slash-sticky", "C19", "feature.go", "\t\t\tif !esc {\n\t\t\t\treturn s[:i], s[i+1:]\n\t\t\t}\n\t\t\tesc = false\n", "\t\t\tif !esc {\n\t\t\t\treturn s[:i], s[i+1:]\n\t\t\t}\n", ["ESC-AUTOMATON|gts.shiftSelector|slash,pending=true"], note="the repaired defect, reintroduced")
+mut("c19-esc-silent-spelled-out", "C19", "feature.go", "\t\t\tesc = !esc\n", "\t\t\tif esc {\n\t\t\t\tesc = false\n\t\t\t} else {\n\t\t\t\tesc = true\n\t\t\t}\n", silent=True)
+mut("c19-pure-insert-append", "C19", "feature.go", "\tgg := make(FeatureSlice, len(ff)+1)\n\tcopy(gg, ff[:i])\n\tgg[i] = f\n\tcopy(gg[i+1:], ff[i:])\n", "\tgg := append(ff, f)\n\tcopy(gg[i+1:], ff[i:])\n\tgg[i] = f\n", ["PURE|(gts.FeatureSlice).Insert"])
+mut("c06-pure-flatten-in-place", "C06", "location.go", "\tlist := []Location{}\n\tfor i := range locs {", "\tlist := locs[:0]\n\tfor i := range locs {", ["PURE|"])
+mut("c15-locator-shared", "C15", "locator.go", "func locationLocator(loc Location) Locator {\n\treturn func(seq Sequence) Regions {\n\t\treturn Regions{loc.Region()}\n\t}\n}", "func locationLocator(loc Location) Locator {\n\trr := Regions{loc.Region()}\n\treturn func(seq Sequence) Regions {\n\t\treturn rr\n\t}\n}", ["LOCATOR-FRESH|gts.locationLocator"])
+mut("c12-concat-offset-head", "C12", "sequence.go", "f.Loc = f.Loc.Expand(0, len(p))", "f.Loc = f.Loc.Expand(0, Len(head))", ["CONCAT-OFFSET|gts.Concat"])
+
+
+mut("c04-partial-shift-complete", "C04", "location.go", "\tif i < end {\n\t\tend += n\n\t}\n\treturn Ranged{start, end, partial}", "\tif i < end {\n\t\tend += n\n\t}\n\treturn Ranged{start, end, Complete}", ["PARTIAL-CARRY|gts.Ranged.Shift"])
+mut("c04-partial-normalize-silent-literal", "C04", "location.go", "\t\treturn PartialRange(start, end, ranged.Partial)\n\t}\n\tleft, right := Range(start, length), Range(0, end)", "\t\treturn Ranged{start, end, ranged.Partial}\n\t}\n\tleft, right := Range(start, length), Range(0, end)", silent=True)
+mut("c04-partial-split-right-unmarked", "C04", "location.go", "\tif ranged.Partial.Partial3 {\n\t\tright.Partial = Partial3\n\t}\n\treturn Join(left, right)", "\t_ = right.Partial\n\treturn Join(left, right)", ["PARTIAL-CARRY|gts.Ranged.Normalize"])
+mut("c06-push-complement-order", "C06", "location.go", "\t\t\ttmp := LocationList{u.Location, nil}\n\t\t\ttmp.Push(v.Location, force)", "\t\t\ttmp := LocationList{v.Location, nil}\n\t\t\ttmp.Push(u.Location, force)", ["PUSH-COMPLEMENT|gts.(*LocationList).Push|Complemented+Complemented"])
+mut("c06-push-complement-force-dropped", "C06", "location.go", "\t\t\ttmp.Push(v.Location, force)", "\t\t\ttmp.Push(v.Location, false)", ["PUSH-COMPLEMENT|gts.(*LocationList).Push|Complemented+Complemented"])
 
 if __name__ == "__main__":
     here = os.path.dirname(os.path.abspath(__file__))
